@@ -85,6 +85,12 @@ def run(ctx):
         ctx.add_tlc(r, "C14 liveness under fairness")
         if not r.ok:
             raise vlib.Inconclusive("model finding in UdpNat.tla (liveness): %s" % r.violated)
+    # negative control: onWrite with its two steps swapped - TLC must find the deadline moving earlier (FastCloseRule)
+    if not os.environ.get("VERIF_UDP_SKIP_MC"):
+        rb_ = vlib.tlc(ctx, "MC_UdpNat", "MC_UdpNatC14Bug.cfg", workers=4, timeout=600, deadlock=False)
+        ctx.cov["model_of_swapped_onWrite"] = {"violated": rb_.violated, "trace_len": len(rb_.trace)}
+        if rb_.violated != "FastCloseRule":
+            raise vlib.Inconclusive("MC_UdpNatC14Bug.cfg: expected TLC to find FastCloseRule violated, got %r" % rb_.violated)
     # 2. virtual time
     vb = U.gen(ctx, "Gen_UdpNatVirt.cfg", 120 if q else 2000, seed=ctx.seed + 31)
     rows = virt(ctx, vb)
